@@ -150,6 +150,8 @@ def judge_reply(block, key):
     if not up:
         return ('rejected', 'no Upgrade header')
     if len(up) > 1:
+        if not any(b'websocket' in [t.strip().lower() for t in v.split(b',')] for v in up):
+            return ('rejected', 'no Upgrade header names websocket')
         return ('dontcare', 'duplicate Upgrade header')
     if up[0].strip().lower() != b'websocket':
         return ('rejected', 'Upgrade: %r' % up[0])
@@ -157,6 +159,8 @@ def judge_reply(block, key):
     if not acc:
         return ('rejected', 'no Sec-WebSocket-Accept')
     if len(acc) > 1:
+        if any(a != accept_for(key) for a in acc):
+            return ('rejected', 'several Sec-WebSocket-Accept headers, not all of them correct')
         return ('dontcare', 'duplicate Sec-WebSocket-Accept')
     if acc[0] != accept_for(key):
         return ('rejected', 'wrong Sec-WebSocket-Accept')
